@@ -3,7 +3,7 @@
    /repo's AreaDefinition.__getitem__ on every run (Gen/GenC10.v). *)
 From Coq Require Import Reals ZArith List Lia Lra Bool.
 From PR Require Import Base.Num Base.RNum Base.Slice Model.Grid Model.SliceArea Model.Stack Gen.GenC10
-     Model.LonlatPaths Base.ZX Proofs.C10_list Proofs.C10_slice Proofs.C10_stack Proofs.C10_paths Proofs.C10_main.
+     Model.LonlatPaths Model.StackDask Base.ZX Proofs.C10_list Proofs.C10_slice Proofs.C10_stack Proofs.C10_paths Proofs.C10_main.
 Import ListNotations.
 Open Scope Z_scope.
 
@@ -222,3 +222,14 @@ Theorem C10_swath_append_history : forall (A : Type) (s : swath A) (ts : list (s
   swath_append_all s ts = (fst s ++ concat (map fst ts), snd s ++ concat (map snd ts)).
 Proof. exact main_swath_append_history. Qed.
 Print Assumptions C10_swath_append_history.
+
+(* the dask path of StackedAreaDefinition.get_lonlats: whatever chunking each member ends up with (any tiling of its
+   shape), the vstacked, locally sliced dask arrays are the rows of the numpy path *)
+Theorem C10_stacked_dask_chunks_independent : forall (T C : Type) (OP : ops T) (inv : T -> T -> C) rs cs
+    (defs : list (garea T)) (chs : list (list Z * list Z)),
+  Forall2 tiling defs chs ->
+  stacked_rows_dask OP inv rs cs 0 defs chs = stacked_rows OP inv rs cs 0 defs.
+Proof. exact main_stacked_dask_chunks_independent. Qed.
+Print Assumptions C10_stacked_dask_chunks_independent.
+Example C10_stacked_dask_ex : Forall2 (@tiling R) [ex_area; ex_area] [([3], [2; 2]); ([1; 2], [4])].
+Proof. repeat constructor; cbn; lia. Qed.
